@@ -46,12 +46,16 @@ static int parse_sel(const char *s, cgsize_t *st, cgsize_t *en, cgsize_t *sd) {
     }
     return n;
 }
+static int bp_depth;
 static void build_path(fil *f, int u, char *out) {
     if (u == 0) { out[0] = 0; return; }
+    if (++bp_depth > 64) { bp_depth--; strcpy(out, "/<parent cycle>"); return; }   /* a move the library accepted made a cycle */
     build_path(f, f->h[u].parent, out);
-    strcat(out, "/"); strcat(out, f->h[u].name);
+    bp_depth--;
+    if (strlen(out) < 7000) { strcat(out, "/"); strcat(out, f->h[u].name); }
 }
 static void kill_subtree(fil *f, int u) {
+    if (!f->h[u].alive) return;
     f->h[u].alive = 0;
     for (int i = 1; i < MAXH; i++) if (f->h[i].alive && f->h[i].parent == u) kill_subtree(f, i);
 }
